@@ -155,6 +155,9 @@ class RefNFA:
                 else:
                     self.eps[e].append(a0)
             return e
+        if k == 'sep':
+            # a separator inside a bracket/group alternative can never be matched there
+            return self.new()
         raise ValueError(nd)
 
     def negated(self, alts, s):
@@ -293,3 +296,207 @@ class Domain:
 
     def accepting(self, S):
         return self.pred(S)
+
+
+# ================================================================ path mode (DESIGN 6 C02)
+
+class PathFlags:
+    def __init__(self, globstar=False, globstarlong=False, matchbase=False, dotglob=False, nodir=False,
+                 extmatchbase=False):
+        self.globstar = globstar or globstarlong
+        self.globstarlong = globstarlong
+        self.matchbase = matchbase
+        self.dotglob = dotglob
+        self.nodir = nodir
+        self.extmatchbase = extmatchbase
+
+
+def split_segments(seq):
+    """-> (absolute, [segments], trailing)"""
+    absolute = False
+    segs = []
+    cur = []
+    trailing = False
+    for i, nd in enumerate(seq):
+        if nd[0] == 'sep':
+            if i == 0:
+                absolute = True
+            elif cur:
+                segs.append(tuple(cur))
+                cur = []
+            trailing = True
+        else:
+            cur.append(nd)
+            trailing = False
+    if cur:
+        segs.append(tuple(cur))
+    if not segs:
+        trailing = False
+    return absolute, segs, trailing
+
+
+def is_gstar(seg, pf):
+    if len(seg) != 1 or seg[0][0] != 'star':
+        return False
+    k = seg[0][1]
+    return (k == 2 and pf.globstar) or (k == 3 and pf.globstarlong)
+
+
+class PathRef:
+    """Forward reference NFA of a path-mode pattern with segment semantics; .dfa reads right-to-left."""
+
+    def __init__(self, seq, alphabet, mode, pf, hidden_aware=False):
+        self.n = n = RefNFA(alphabet, mode)
+        self.pf = pf
+        self.hidden_aware = hidden_aware
+        absolute, segs, trailing = split_segments(seq)
+        has_sep = any(nd[0] == 'sep' for nd in seq)
+        self.absolute = absolute
+        # merge consecutive globstars
+        merged = []
+        for sg in segs:
+            g = is_gstar(sg, pf)
+            if g and merged and merged[-1][0]:
+                continue
+            merged.append((g, sg))
+        implicit = (pf.matchbase and not has_sep and segs) or (pf.extmatchbase and not absolute and segs)
+        if implicit and not (merged and merged[0][0]):
+            merged.insert(0, (True, None))
+        self.starts_gstar = bool(merged and merged[0][0])
+        self.ends_gstar_slash = bool(merged and merged[-1][0] and trailing)
+        self.start = s = n.new()
+        if absolute:
+            s = self._sepplus(s)
+        for i, (g, sg) in enumerate(merged):
+            last = i == len(merged) - 1
+            if not g:
+                e = self._segment(sg, s)
+                s = e if last else self._sepplus(e)
+            elif not last:
+                # (H sep+)*
+                h = self._H(s)
+                back = self._sepplus(h)
+                n.eps[back].append(s)
+            elif trailing:
+                h = self._H(s)
+                back = self._sepplus(h)
+                n.eps[back].append(s)
+            else:
+                # eps | H (sep+ H)*
+                end = n.new()
+                n.eps[s].append(end)
+                h = self._H(s)
+                n.eps[h].append(end)
+                s2 = self._sepplus(h)
+                h2 = self._H(s2)
+                n.eps[h2].append(h)
+                s = end
+        if trailing and not (merged and merged[-1][0]):
+            s = self._sepplus(s)
+        # trailing separators on the path are always tolerated
+        fin = n.new()
+        n.eps[s].append(fin)
+        if n.sep_mask:
+            n.tr[fin].append((n.sep_mask, fin, LAB_LIT))
+        self.final = s = fin
+        self.dfa = RevDFA(n, self.start, self.final)
+
+    def _sepplus(self, s):
+        n = self.n
+        s1 = n.new()
+        n.eps[s].append(s1)
+        e = n.new()
+        if n.sep_mask:
+            n.tr[s1].append((n.sep_mask, e, LAB_LIT))
+            n.tr[e].append((n.sep_mask, e, LAB_LIT))
+        e2 = n.new()
+        n.eps[e].append(e2)
+        return e2
+
+    def _segment(self, sg, s):
+        """L(segment) intersected with (non-separator)+ ; appended after state s, returns end state."""
+        n = self.n
+        ss = n.new()
+        se = n.seq(sg, ss, True)
+        s2 = n.new()
+        n.eps[s].append(s2)
+        for q in n.eclose({ss}):
+            for tr in n.tr[q]:
+                n.tr[s2].append(tr)
+        return se
+
+    def _H(self, s):
+        """One whole admissible segment for a globstar, from s; returns end state."""
+        n = self.n
+        wild = n.nonsep_mask
+        dot = n.dot_mask
+        s0 = n.new()
+        n.eps[s].append(s0)
+        s = s0
+        hx = n.new()
+        n.tr[hx].append((wild, hx, LAB_WILD))
+        if self.pf.dotglob:
+            d1 = n.new()
+            d2 = n.new()
+            n.tr[s].append((wild & ~dot, hx, LAB_WILD))
+            if dot:
+                n.tr[s].append((dot, d1, LAB_WILD))
+                n.tr[d1].append((wild & ~dot, hx, LAB_WILD))
+                n.tr[d1].append((dot, d2, LAB_WILD))
+                n.tr[d2].append((wild, hx, LAB_WILD))
+        else:
+            n.tr[s].append((wild & ~dot, hx, LAB_WILD))
+        out = n.new()
+        n.eps[hx].append(out)
+        return out
+
+
+class PathTracker:
+    """Domain tracker for paths (reads right-to-left).
+
+    State: (hidden, special, first_dot, dots, nonsep, ends_sep, last_sep, empty)
+      hidden/special: some completed segment began with '.' (and is not special) / was exactly '.' or '..'
+      first_dot: the current segment (non-empty) so far begins with '.'; dots: 0 = the current segment is empty or
+      contains a non-dot, 1..3 = it consists only of that many dots (3 = three or more)
+      nonsep: some non-separator seen; ends_sep: the path ends with a separator; last_sep: last read char is a sep
+    accepting(state) returns the finalised tuple (hidden, special, nonempty, nonsep, ends_sep, absolute).
+    """
+
+    def __init__(self, alphabet, seps):
+        self.sep = {i for i, c in enumerate(alphabet) if c in seps}
+        self.dot = alphabet.index(0x2e) if 0x2e in alphabet else -1
+        self.init = (False, False, False, 0, False, False, False, True)
+        self._fin = {}
+
+    @staticmethod
+    def _close(hidden, special, first_dot, dots):
+        if first_dot:
+            if dots in (1, 2):
+                special = True
+            else:
+                hidden = True
+        return hidden, special
+
+    def step(self, S, ci):
+        hidden, special, first_dot, dots, nonsep, ends_sep, last_sep, empty = S
+        if ci in self.sep:
+            hidden, special = self._close(hidden, special, first_dot, dots)
+            return (hidden, special, False, 0, nonsep, ends_sep or empty, True, False)
+        seg_empty = last_sep or empty
+        if ci == self.dot:
+            if seg_empty:
+                nd = 1
+            elif dots:
+                nd = min(dots + 1, 3)
+            else:
+                nd = 0
+            return (hidden, special, True, nd, True, ends_sep, False, False)
+        return (hidden, special, False, 0, True, ends_sep, False, False)
+
+    def accepting(self, S):
+        r = self._fin.get(S)
+        if r is None:
+            hidden, special, first_dot, dots, nonsep, ends_sep, last_sep, empty = S
+            hidden, special = self._close(hidden, special, first_dot, dots)
+            r = self._fin[S] = (hidden, special, not empty, nonsep, ends_sep, last_sep)
+        return r
